@@ -114,6 +114,10 @@ type RaftNode struct {
 	state       *fsmState
 	snapshotsCh chan *protocol.Snapshot // channel to publish snapshots
 
+	// applyLock is write-held from the moment an insertion updates the trees in memory
+	// until its mutations have reached the store, and read-held by the queries
+	applyLock sync.RWMutex
+
 	hasherF     func() hashing.Hasher
 	metrics     *raftNodeMetrics     // Raft node metrics.
 	raftMetrics *raftInternalMetrics // Raft internal metrics.
